@@ -9,7 +9,12 @@ SELFDESTRUCT are lists of primitive moves between observed buckets.  Over everyt
 `tokenTotal`):
 * `applyPrim_move_conserves`: a move between buckets that exist changes neither total (whatever the amount, also "all");
 * `applyPrim_burn`: the one designed destruction lowers the native total by exactly the holdings of the bucket, and nothing else;
-* `applyPrims_conserves`: a list of moves conserves both totals;
+* `applyPrims_conserves`: a list of moves (and SELFDESTRUCT marks) conserves both totals;
+* blocks (`applyBlock` = the movements in order, then `endBlock`: objects destroyed in the block are deleted with what they
+  hold by then): `C06X_block_statement` (every block of in-range moves and marks conserves the native total) is FALSE of
+  the model, which mirrors the code: `C06X_block_counterexample` is the known finding's witness (an instance is destroyed,
+  a later transaction of the same block pays it 77, the 77 are gone); `C06X_block_partial` proves conservation for blocks
+  in which no destroyed instance holds anything at the end (no payment to it after its destruction stayed with it);
 * `X_statement_unrestricted` (every primitive list conserves) is FALSE: `X_counterexample` (a burn), and so is the version
   without the in-range hypothesis: `X_counterexample_range` (a move to a bucket that is not observed loses the value —
   the shape of the defect recorded in proposed/C06-pay-selfdestructed-same-block.md).
@@ -115,6 +120,7 @@ def AllMoves (s : St) (x : XS) : List Prim → Prop
   | [] => True
   | .move tok src dst _ :: ps => InRange s x tok src ∧ InRange s x tok dst ∧ AllMoves s x ps
   | .burn _ :: _ => False
+  | .kill b :: ps => InRange s x false b ∧ AllMoves s x ps
 
 instance allMovesDecidable (s : St) (x : XS) : (ps : List Prim) → Decidable (AllMoves s x ps)
   | [] => isTrue trivial
@@ -122,6 +128,9 @@ instance allMovesDecidable (s : St) (x : XS) : (ps : List Prim) → Decidable (A
     have := allMovesDecidable s x ps
     inferInstanceAs (Decidable (InRange s x tok src ∧ InRange s x tok dst ∧ AllMoves s x ps))
   | .burn _ :: _ => isFalse (fun h => h)
+  | .kill b :: ps =>
+    have := allMovesDecidable s x ps
+    inferInstanceAs (Decidable (InRange s x false b ∧ AllMoves s x ps))
 
 theorem applyPrim_inRange (s : St) (x : XS) (p : Prim) (tok' : Bool) (b' : Bk) (h : InRange s x tok' b') :
     InRange (applyPrim (s, x) p).1 (applyPrim (s, x) p).2 tok' b' := by
@@ -137,6 +146,19 @@ theorem applyPrim_inRange (s : St) (x : XS) (p : Prim) (tok' : Bool) (b' : Bk) (
     | x k =>
       simp only [applyPrim]
       cases b' <;> cases tok' <;> simp only [InRange, Bool.false_eq_true, if_false, if_true] at h0 ⊢ <;> exact h0
+  | kill b =>
+    cases b with
+    | acct i => simp only [applyPrim]; exact h
+    | zero => simp only [applyPrim]; exact h
+    | x k =>
+      simp only [applyPrim]
+      cases b' <;> cases tok' <;> simp only [InRange, Bool.false_eq_true, if_false, if_true] at h ⊢ <;> exact h
+
+/-- a SELFDESTRUCT mark moves nothing -/
+theorem applyPrim_kill_totals (s : St) (x : XS) (b : Bk) :
+    nativeTotal (applyPrim (s, x) (.kill b)).1 (applyPrim (s, x) (.kill b)).2 = nativeTotal s x ∧
+    tokenTotal (applyPrim (s, x) (.kill b)).1 (applyPrim (s, x) (.kill b)).2 = tokenTotal s x := by
+  cases b <;> exact ⟨rfl, rfl⟩
 
 theorem allMoves_step (s : St) (x : XS) (p : Prim) (ps : List Prim) (h : AllMoves s x ps) :
     AllMoves (applyPrim (s, x) p).1 (applyPrim (s, x) p).2 ps := by
@@ -148,6 +170,9 @@ theorem allMoves_step (s : St) (x : XS) (p : Prim) (ps : List Prim) (h : AllMove
       simp only [AllMoves] at h ⊢
       exact ⟨applyPrim_inRange s x p tok src h.1, applyPrim_inRange s x p tok dst h.2.1, ih h.2.2⟩
     | burn b => exact absurd h (by simp [AllMoves])
+    | kill b =>
+      simp only [AllMoves] at h ⊢
+      exact ⟨applyPrim_inRange s x p false b h.1, ih h.2⟩
 
 /-- **C06 over contract movements (partial).**  A list of moves between observed buckets conserves the native and the token
 total.  This is what every contract transaction of the harness books except SELFDESTRUCT in favour of the contract itself. -/
@@ -166,6 +191,93 @@ theorem applyPrims_conserves (ps : List Prim) (s : St) (x : XS) (h : AllMoves s 
         (allMoves_step s x _ ps h.2.2)
       simp only [applyPrims, List.foldl_cons] at h2 ⊢
       exact ⟨h2.1.trans h1.1, h2.2.trans h1.2⟩
+    | kill b =>
+      simp only [AllMoves] at h
+      have h1 := applyPrim_kill_totals s x b
+      have h2 := ih (applyPrim (s, x) (.kill b)).1 (applyPrim (s, x) (.kill b)).2 (allMoves_step s x _ ps h.2)
+      simp only [applyPrims, List.foldl_cons] at h2 ⊢
+      exact ⟨h2.1.trans h1.1, h2.2.trans h1.2⟩
+
+/-! ## blocks: objects destroyed in a block are deleted at its end with what they hold by then -/
+
+theorem addAt_zero (xs : List Int) (k : Nat) : addAt xs k 0 = xs := by
+  unfold addAt
+  induction xs generalizing k with
+  | nil => simp
+  | cons y ys ih =>
+    cases k with
+    | zero => simp
+    | succ k => simp only [List.modify_succ_cons]; rw [ih k]
+
+/-- deleting an object that holds nothing changes nothing -/
+theorem burn_empty (s : St) (x : XS) (k : Nat) (h : geti x.xb k = 0) : applyPrim (s, x) (.burn (.x k)) = (s, x) := by
+  simp only [applyPrim, getBk, Bool.false_eq_true, if_false, h, Int.neg_zero, addBk, addAt_zero]
+
+/-- no object destroyed in the block holds anything: no payment to it after its destruction stayed with it -/
+def DeadEmpty (sx : St × XS) : Prop := ∀ k ∈ sx.2.killed, geti sx.2.xb k = 0
+
+instance (sx : St × XS) : Decidable (DeadEmpty sx) := inferInstanceAs (Decidable (∀ k ∈ sx.2.killed, geti sx.2.xb k = 0))
+
+theorem endBlock_of_deadEmpty (sx : St × XS) (h : DeadEmpty sx) : endBlock sx = (sx.1, { sx.2 with killed := [] }) := by
+  obtain ⟨s, x⟩ := sx
+  unfold endBlock
+  have key : ∀ (ks : List Nat), (∀ k ∈ ks, geti x.xb k = 0) →
+      ks.foldl (fun acc k => applyPrim acc (.burn (.x k))) (s, x) = (s, x) := by
+    intro ks
+    induction ks with
+    | nil => intro _; rfl
+    | cons k ks ih =>
+      intro hk
+      simp only [List.foldl_cons]
+      rw [burn_empty s x k (hk k (by simp))]
+      exact ih (fun j hj => hk j (by simp [hj]))
+  simp only [key x.killed h]
+
+theorem foldl_applyPrims_flatten (txs : List (List Prim)) (sx : St × XS) :
+    txs.foldl applyPrims sx = applyPrims sx txs.flatten := by
+  induction txs generalizing sx with
+  | nil => rfl
+  | cons t ts ih =>
+    simp only [List.foldl_cons, List.flatten_cons, applyPrims, List.foldl_append]
+    exact ih _
+
+/-- what C06 demands of a block of contract movements: in-range moves and SELFDESTRUCT marks conserve the native total -/
+def C06X_block_statement : Prop :=
+  ∀ (txs : List (List Prim)) (s : St) (x : XS), AllMoves s x txs.flatten →
+    nativeTotal (applyBlock (s, x) txs).1 (applyBlock (s, x) txs).2 = nativeTotal s x
+
+/-- **C06 over blocks of contract movements (partial).**  Conservation for every block in which no destroyed instance holds
+anything at the end of the block — i.e. without a payment that an instance received, and kept, after an earlier transaction
+of the same block destroyed it.  The full statement is false of the model (which mirrors the code): `C06X_block_counterexample`. -/
+theorem C06X_block_partial (txs : List (List Prim)) (s : St) (x : XS) (h : AllMoves s x txs.flatten)
+    (hd : DeadEmpty (txs.foldl applyPrims (s, x))) :
+    nativeTotal (applyBlock (s, x) txs).1 (applyBlock (s, x) txs).2 = nativeTotal s x ∧
+    tokenTotal (applyBlock (s, x) txs).1 (applyBlock (s, x) txs).2 = tokenTotal s x := by
+  unfold applyBlock
+  rw [endBlock_of_deadEmpty _ hd, foldl_applyPrims_flatten]
+  exact applyPrims_conserves txs.flatten s x h
+
+/-- the known finding's witness: instance 0 (bucket 3) is destroyed in favour of account 2 by the first transaction; the second
+transaction of the block pays it 77 -/
+def wit_s : St := { bal := [1000, 1000, 1000], tok := [0, 0, 0], nonce := [1, 0, 0], sbal := [1000, 1000, 1000], stok := [0, 0, 0], snonce := [1, 0, 0] }
+def wit_x : XS := { xb := [0, 0, 0, 0], xt := [0, 0, 0, 0], rx := [0, 0, 0, 0] }
+def wit_block : List (List Prim) :=
+  [[.move false (.acct 0) (.x 3) (some 0), .move false (.x 3) (.acct 2) none, .kill (.x 3)],
+   [.move false (.acct 1) (.x 3) (some 77)]]
+
+/-- 77 units are destroyed, and the balance records keep crediting them (`rx`) -/
+theorem wit_effect : nativeTotal (applyBlock (wit_s, wit_x) wit_block).1 (applyBlock (wit_s, wit_x) wit_block).2 = nativeTotal wit_s wit_x - 77 ∧
+    (applyBlock (wit_s, wit_x) wit_block).2.rx = [0, 0, 0, 77] ∧ (applyBlock (wit_s, wit_x) wit_block).1.bal = [1000, 923, 1000] := by decide
+
+theorem C06X_block_counterexample : ¬ C06X_block_statement := by
+  intro h
+  have := h wit_block wit_s wit_x (by decide)
+  revert this; decide
+
+/-- the hypothesis of the partial theorem is exactly what the witness violates; without the payment it holds -/
+example : ¬ DeadEmpty (wit_block.foldl applyPrims (wit_s, wit_x)) := by decide
+example : DeadEmpty ((wit_block.take 1).foldl applyPrims (wit_s, wit_x)) := by decide
+example : nativeTotal (applyBlock (wit_s, wit_x) (wit_block.take 1)).1 (applyBlock (wit_s, wit_x) (wit_block.take 1)).2 = nativeTotal wit_s wit_x := by decide
 
 /-! ## the unrestricted statements are false -/
 
